@@ -155,3 +155,16 @@ def alpha_print(fn, drop_calls: typing.Sequence[str] = (), width: typing.Optiona
         tag = {"IfStmt": "if ", "WhileStmt": "while "}.get(k, "")
         lines.append(f"{depth}|{tag}{cast.show(ren(t))}")
     return lines
+
+
+def zero_fill_guard_ok(guards, count, env) -> typing.Tuple[bool, str]:
+    """a zero-extension memset may only be skipped when its own byte count is zero"""
+    for kind, cond in guards:
+        c = cast.substitute(cond, env)
+        cnt = cast.substitute(count, env)
+        ok = kind == "if" and c[0] == "bin" and (
+            (c[1] in (">", "!=") and c[2] == cnt and is_int(c[3], 0)) or (c[1] in ("<", "!=") and is_int(c[2], 0) and c[3] == cnt))
+        if not ok:
+            return False, (f"the zero fill runs only under `{cast.show(cond)}`: when that is false the output keeps stale bits "
+                           "(e.g. the padding of the last byte when the length is not a multiple of 8)")
+    return True, ""
